@@ -42,6 +42,9 @@ fn intents(script: &Value) -> (Vec<Intent>, Vec<(u64, u64)>) {
     (out, units)
 }
 impl Sut for RsSut {
+    fn config(&self) -> Value {
+        json!([self.r.k()])
+    }
     const TAG: &'static str = "rs";
     fn new(cfg: &Value) -> Self {
         let k = cfg["kk"].as_u64().unwrap() as usize;
